@@ -17,7 +17,7 @@ from ..ast.visitor import DefaultVisitor
 from ..fpc_context import FPCoreContext
 from ..interpret import Interpreter, Value, get_default_interpreter
 from ..interpret.value import to_value, unwrap_foreign
-from ..number import REAL
+from ..number import REAL, Float, same_value
 from .define_use import DefineUse, DefineUseAnalysis, Definition, DefSite
 
 
@@ -42,6 +42,24 @@ class PartialEvalInfo:
     by_def: dict[Definition, Value]
     by_expr: dict[Expr, Value]
     def_use: DefineUseAnalysis
+
+
+def _same_constant(a, b) -> bool:
+    """Whether two folded values are the same constant, the sign of a zero
+    included: `==` calls `+0.0` and `-0.0` equal, and a merge of the two is not
+    a constant."""
+    if isinstance(a, Float) and isinstance(b, Float):
+        return same_value(a, b)
+    if isinstance(a, Float) or isinstance(b, Float):
+        # an exact rational is never a negative zero, an infinity or a NaN
+        f, o = (a, b) if isinstance(a, Float) else (b, a)
+        return not f.is_nar() and not (f.is_zero() and f.s) and f == o
+    if isinstance(a, (tuple, list)) and isinstance(b, (tuple, list)):
+        return (
+            type(a) is type(b) and len(a) == len(b)
+            and all(_same_constant(x, y) for x, y in zip(a, b))
+        )
+    return a == b
 
 
 class _PartialEvalInstance(DefaultVisitor):
@@ -109,7 +127,7 @@ class _PartialEvalInstance(DefaultVisitor):
             return a
         if a is _TOP or b is _TOP:
             return _TOP
-        return a if a == b else _TOP
+        return a if _same_constant(a, b) else _TOP
 
     def _merge_branch_phis(self, stmt: Stmt):
         """Merge phis after an ``if`` / ``if-else``: both branches are
